@@ -57,7 +57,10 @@ def cases(draw):
          "fmts": [draw(st.sampled_from(["C", "C", "U"])) for _ in range(d)],
          "mutable": draw(st.booleans()), "seed": draw(st.integers(0, 99))}
     shape = [draw(st.integers(1, 5 if d < 4 else 3)) for _ in range(d)]
-    c["spec"] = draw(gen.content_specs(shape, defaults=(0, 0, 2), max_points=8, min_points=1, p_noise=0.5,
+    c["spec"] = draw(gen.content_specs(shape, defaults=(0, 0, 2), max_points=8,
+                                       # (a tensor that holds no value yet -- only structure -- is transformed as well)
+                                       min_points=0 if op in ("swap", "flatten_unflatten", "swizzle") and
+                                       draw(st.integers(0, 3)) == 0 else 1, p_noise=0.5,
                                        auth="any"))
     return c
 
@@ -155,10 +158,6 @@ def check(case, rec):
     if op == "construct":
         r = None
     elif op in ("splitUniform", "splitEqual", "splitNonUniform", "splitUnEqual", "truediv", "floordiv"):
-        if fmts[depth] == "U" or op in ("truediv", "floordiv") and fmts[0] == "U":
-            for i in range(d):
-                t.setFormat(ids[i], "C")
-            fmts = ["C"] * d
         if op in ("truediv", "floordiv"):
             depth, S = 0, shape[0]
         if op == "splitUniform":
@@ -384,8 +383,22 @@ def check(case, rec):
     elif op == "updateCoords":
         # (a rank without a declared shape needs new_shape: the docstring's precondition)
         kw = {} if auth else {"new_shape": S}
-        r = t.updateCoords(lambda i, c, p: S - 1 - c, depth=depth, **kw)
-        expect(r, where, ids=ids, shape=ashape if auth else "skip", default=default, fmts=fmts, mutable=mut)
+        nid, nshape = list(ids), (list(ashape) if auth else None)
+        fn = lambda i, c, p: S - 1 - c
+        if sel[1] % 3 == 0 and depth == 0:
+            # documented parameters: a new id for the updated rank, and a new shape where the map needs one
+            kw["new_rank_id"] = "Q"
+            nid[0] = "Q"
+            if sel[2] % 2:
+                fn = lambda i, c, p: 2 * c
+                kw["new_shape"] = 2 * S
+                if auth:
+                    nshape[0] = 2 * S
+            rec.cls("updateCoords-new-rank-id")
+        r = t.updateCoords(fn, depth=depth, **kw)
+        if t.getRankIds() != ids:
+            raise Violation("operand-attrs", f"updateCoords changed its operand's rank ids to {t.getRankIds()}")
+        expect(r, where, ids=nid, shape=nshape if auth else "skip", default=default, fmts=fmts, mutable=mut)
     elif op == "updatePayloads":
         r = t.updatePayloads(lambda i, c, p: p + 1, depth=d - 1)
         expect(r, where, ids=ids, shape=ashape if auth else "skip", default=default, fmts=fmts, mutable=mut)
@@ -522,8 +535,8 @@ def check_lazy(case, rec):
         u.getRankAttrs().setId("Q")
         t = Tensor.fromFiber(["Z"], u, shape=[S + 20], default=case["default"])
         f = t.getRoot()
-        if f.getRankAttrs() is not t.ranks[0].getAttrs():
-            raise Violation("adopt", "adopted fiber does not use its rank's attributes")
+        # (what the fiber reports must be the rank's attributes; whether it does so through the very same
+        # attribute object is not part of the statement)
         if f.getRankAttrs().getId() != "Z" or f.getRankIds() != ["Z"]:
             raise Violation("adopt", f"adopted fiber reports rank id {f.getRankAttrs().getId()!r}, rank is 'Z'")
         if Payload.get(f.getDefault()) != case["default"]:
